@@ -2,6 +2,7 @@ package rules
 
 import (
 	"fmt"
+	"go/token"
 
 	"golang.org/x/tools/go/ssa"
 
@@ -18,6 +19,7 @@ func c16(r *core.Run) {
 	r.Explanation = "Static rules over the two registration handlers (rns.MsgRegister, rns.MsgRegisterName): the debit and the POL credit are one SSA value that depends on the TLD cost table and the requested years; bank errors propagate to a failing return; every reaching definition of the stored Names.Expires adds a base (current height, or the old expiry only under a live comparison); a found record owned by someone else is overwritten only behind an expired comparison. Decides the structural causes of 'charges the listed price and yields a live name for the term', not the numeric '>= Y years'."
 	r.Assumptions = []string{T1, T3, T4}
 	r.NotDecided = []string{"the numeric bound 'unexpired for at least Y years'", "exact price tiers (control dependence on name length)"}
+	r.Rule("C16/R8", "the price (cost x years) and the term (years x blocks-per-year + base height) are computed only behind division-form overflow tests on the message's year count (or on paths where it is not positive)")
 	r.Rule("C16/R7", "the TLD of a requested name is recognised by a suffix test (name[len(name)-len(tld):] == tld or strings.HasSuffix) in the keeper's parser and in the validation copy: the recognised TLD is what is cut off, priced and stored")
 	r.Rule("C16/R6", "block-height arithmetic is dimensionally consistent: absolute heights (Ctx.BlockHeight and fields assigned from it) are compared only with absolute heights, intervals/offsets/parameters only with each other (point - point = span, point ± span = point), followed through helper calls with the dimensions of the actual arguments")
 	r.Rule("C16/R1", "registration: account->module debit and module->POL credit carry the same value, which depends on msg.Years and the TLD cost table; recipient is the constant POL account; bank errors propagate")
@@ -40,6 +42,9 @@ func c16(r *core.Run) {
 		}
 	}
 	r.Floor("C16/R5", loadWriteKeyAgreement(r, "C16/R5", regs, nil), 2, "load/write pairs in the registration unit")
+	for _, hh := range regs {
+		yearArithmeticGuarded(r, "C16/R8", hh)
+	}
 	n := 0
 	for _, key := range []string{"rns.MsgRegister", "rns.MsgRegisterName"} {
 		h := core.HandlerByKey(hs, key)
@@ -316,4 +321,134 @@ func returnsLoopElement(ret *ssa.Return) bool {
 		return isGlobal
 	}
 	return false
+}
+
+// yearArithmeticGuarded: every multiplication by the message's year count, and every addition of such a product to a
+// height, is reached only behind a division-form overflow test (a <= K/b, resp. years <= (K-base)/c with K >= 2^62).
+func yearArithmeticGuarded(r *core.Run, rule string, h *core.Handler) {
+	p := r.Prog
+	bigConst := func(v ssa.Value) bool {
+		c, ok := v.(*ssa.Const)
+		return ok && c.Value != nil && isInt64(c.Type()) && c.Int64() >= 1<<62
+	}
+	n := 0
+	for _, fn := range p.Summary(h.Fn).Funcs {
+		tb := core.NewTermBuilder(p)
+		hasYears := func(v ssa.Value, at ssa.Instruction) bool {
+			return p.HasMsgField(p.ProvAt(v, "", at), h, "Years")
+		}
+		allInstrs(fn, func(in ssa.Instruction) {
+			bo, ok := in.(*ssa.BinOp)
+			if !ok || !isInt64(bo.Type()) || (bo.Op != token.MUL && bo.Op != token.ADD) {
+				return
+			}
+			if !hasYears(bo.X, bo) && !hasYears(bo.Y, bo) {
+				return
+			}
+			n++
+			r.Analysed(core.FnName(fn))
+			a, b := tb.Term(bo.X), tb.Term(bo.Y)
+			var guard core.GuardMatch
+			if bo.Op == token.MUL {
+				guard = func(ca *core.CondAtom, truth bool) bool {
+					if ca.Kind != "cmp" {
+						return false
+					}
+					op := ca.Op
+					if !truth {
+						op = negate(op)
+					}
+					x, y := ca.X, ca.Y
+					if _, isQ := x.(*ssa.BinOp); isQ {
+						if q := x.(*ssa.BinOp); q.Op == token.QUO {
+							x, y, op = y, x, flip(op)
+						}
+					}
+					q, ok := y.(*ssa.BinOp)
+					if !ok || q.Op != token.QUO || (op != token.LEQ && op != token.LSS) {
+						return false
+					}
+					k := q.X
+					if s, isSub := k.(*ssa.BinOp); isSub && s.Op == token.SUB {
+						k = s.X
+					}
+					if !bigConst(k) {
+						return false
+					}
+					tx, ty := tb.Term(x), tb.Term(q.Y)
+					return (tx == a && ty == b) || (tx == b && ty == a)
+				}
+			} else {
+				// product + base: some guard bounds the year count by (K - T)/c where T covers this base
+				base := bo.Y
+				if hasYears(bo.Y, bo) {
+					base = bo.X
+				}
+				baseAtoms := p.ProvAt(base, "", bo).DataAtoms()
+				guard = func(ca *core.CondAtom, truth bool) bool {
+					if ca.Kind != "cmp" {
+						return false
+					}
+					for _, side := range []ssa.Value{ca.X, ca.Y} {
+						q, ok := side.(*ssa.BinOp)
+						if !ok || q.Op != token.QUO {
+							continue
+						}
+						s, isSub := q.X.(*ssa.BinOp)
+						if !isSub || s.Op != token.SUB || !bigConst(s.X) {
+							continue
+						}
+						tp := p.ProvAt(s.Y, "", ca.If)
+						covers := true
+						for _, ba := range baseAtoms {
+							if !tp.Any(func(x core.Atom) bool { return x.Key() == ba.Key() }) {
+								covers = false
+							}
+						}
+						other := ca.X
+						op := ca.Op
+						if side == ca.X {
+							other = ca.Y
+							op = flip(op)
+						}
+						if !truth {
+							op = negate(op)
+						}
+						if covers && hasYears(other, ca.If) && (op == token.LEQ || op == token.LSS) {
+							return true
+						}
+					}
+					return false
+				}
+			}
+			// years <= 0 needs no guard (a non-positive count cannot overflow upwards): accept paths that passed years<=0
+			nonPos := func(ca *core.CondAtom, truth bool) bool {
+				if ca.Kind != "cmp" {
+					return false
+				}
+				rel := relOnEdge(p, ca, truth, func(pr core.Prov) bool { return p.HasMsgField(pr, h, "Years") }, func(pr core.Prov) bool { return len(pr.DataAtoms()) == 0 })
+				return rel == "<=" || rel == "<"
+			}
+			u := p.FindUnguarded(fn, []*core.Effect{{Instr: bo}}, anyOf(guard, nonPos), true)
+			what := "multiplication by the year count"
+			if bo.Op == token.ADD {
+				what = "addition of the term to the base height"
+			}
+			kind := "price"
+			if bo.Op == token.MUL {
+				if _, isC := bo.Y.(*ssa.Const); isC {
+					kind = "term"
+				} else if _, isC := bo.X.(*ssa.Const); isC {
+					kind = "term"
+				}
+			} else {
+				kind = "expiry-from-old-expiry"
+				if p.ProvAt(bo.X, "", bo).HasCtx("BlockHeight") || p.ProvAt(bo.Y, "", bo).HasCtx("BlockHeight") {
+					kind = "expiry-from-height"
+				}
+			}
+			r.Check(len(u) == 0, rule, h.Key()+":year-arithmetic-cannot-wrap:"+kind, p.InstrPos(bo), what+" behind a division-form overflow test", "the "+what+" ("+a+" "+bo.Op.String()+" "+b+") is not behind a division-form overflow test: for a huge year count the price / expiry wraps around, so the registrant is not charged Y times the yearly price and the name is not live for Y years")
+		})
+	}
+	r.Floor(rule, n, 3, "arithmetic sites on the year count")
 }
